@@ -35,6 +35,7 @@ func checkFor(prop string, g Cfg, prev, cur *Obs, o Op, out Outcome, led *Ledger
 // Execute runs a fixed case on the implementation.
 func Execute(prop string, c Case) *Trace {
 	s := NewSim(c.Cfg)
+	defer s.Close()
 	t := &Trace{Case: c}
 	led := NewLedger()
 	prev := s.Observe()
@@ -56,6 +57,7 @@ func Generate(prop string, r *hx.Rand, nops int) *Trace {
 	g := GenCfg(r)
 	gn := NewGen(r, g)
 	s := NewSim(g)
+	defer s.Close()
 	t := &Trace{Case: Case{Cfg: g}}
 	led := NewLedger()
 	prev := s.Observe()
@@ -301,7 +303,7 @@ func Main(prop string) {
 			}
 		}
 	}
-	n := ctx.Scale(800, 20000)
+	n := ctx.Scale(800, 12000)
 	if os.Getenv("VERIF_STAKER_ONLY") == "contract" { // development aid: only the contract-level slice
 		n = 0
 	}
